@@ -3,10 +3,12 @@
 package kit
 
 import (
+	"bytes"
 	"encoding/json"
 	"flag"
 	"fmt"
 	"os"
+	"os/exec"
 	"path/filepath"
 	"runtime/pprof"
 	"sort"
@@ -28,6 +30,8 @@ var (
 	FlagTier   = flag.String("tier", envOr("VERIF_TIER", "quick"), "quick|thorough")
 	FlagReplay = flag.String("replay", "", "replay file")
 	FlagBudget = flag.Duration("budget", 0, "internal deadline (0 = tier default)")
+	FlagWorker = flag.Int("worker", -1, "worker index (internal)")
+	FlagNWork  = flag.Int("nworkers", 0, "number of workers (internal)")
 )
 
 func envOr(k, d string) string {
@@ -239,11 +243,146 @@ func (r *Report) Broken(format string, a ...interface{}) {
 
 var profStop = func() {}
 
+// IsWorker reports whether this process is a worker subprocess.
+func (r *Report) IsWorker() bool { return *FlagWorker >= 0 }
+
+// Mine reports whether item i belongs to this worker's shard.
+func (r *Report) Mine(i int) bool { return *FlagNWork <= 1 || i%*FlagNWork == *FlagWorker }
+
+type partial struct {
+	Evals      int64                  `json:"evals"`
+	Classes    map[string]int64       `json:"classes"`
+	Samples    []interface{}          `json:"samples"`
+	Vios       []*vio                 `json:"vios"`
+	Known      map[string]int64       `json:"known"`
+	Ints       map[string]int64       `json:"ints"`
+	Other      map[string]interface{} `json:"other"`
+	Capped     string                 `json:"capped"`
+	Exhaustive bool                   `json:"exhaustive"`
+	Assume     []string               `json:"assume"`
+}
+
+func (r *Report) emitPartial() {
+	p := partial{Evals: r.evals.Load(), Classes: r.classes, Samples: r.samples, Known: r.knownSeen, Ints: map[string]int64{}, Other: map[string]interface{}{}, Capped: r.capNote, Exhaustive: r.exhaustive, Assume: r.Assumptions}
+	for _, sig := range r.vioOrder {
+		p.Vios = append(p.Vios, r.vios[sig])
+	}
+	for k, v := range r.Extra {
+		if n, ok := v.(int64); ok {
+			p.Ints[k] = n
+		} else {
+			p.Other[k] = v
+		}
+	}
+	data, err := json.Marshal(p)
+	if err != nil {
+		fmt.Fprintf(os.Stderr, "partial marshal: %v\n", err)
+		os.Exit(2)
+	}
+	os.Stdout.Write([]byte("PARTIAL "))
+	os.Stdout.Write(data)
+	os.Stdout.Write([]byte("\n"))
+	os.Exit(0)
+}
+
+// RunWorkers re-executes this binary n times as worker subprocesses
+// (-worker k -nworkers n), waits for them and merges their partial reports.
+// Used by checks whose engine has process-global state (the E2 scheduler) or
+// whose code under test may hang or exhaust memory.
+func (r *Report) RunWorkers(n int, extraArgs ...string) {
+	type res struct {
+		k   int
+		out []byte
+		err error
+	}
+	ch := make(chan res, n)
+	for k := 0; k < n; k++ {
+		go func(k int) {
+			args := []string{"-tier", r.Tier, "-budget", time.Until(r.deadline).String(), "-worker", strconv.Itoa(k), "-nworkers", strconv.Itoa(n)}
+			args = append(args, extraArgs...)
+			cmd := exec.Command(os.Args[0], args...)
+			cmd.Stderr = os.Stderr
+			out, err := cmd.Output()
+			ch <- res{k, out, err}
+		}(k)
+	}
+	for i := 0; i < n; i++ {
+		x := <-ch
+		var p partial
+		found := false
+		for _, line := range bytes.Split(x.out, []byte("\n")) {
+			if bytes.HasPrefix(line, []byte("PARTIAL ")) {
+				if err := json.Unmarshal(line[8:], &p); err != nil {
+					r.Broken("worker %d: bad partial: %v", x.k, err)
+				}
+				found = true
+			}
+		}
+		if !found {
+			tail := x.out
+			if len(tail) > 2000 {
+				tail = tail[len(tail)-2000:]
+			}
+			r.Broken("worker %d produced no report (err=%v): %s", x.k, x.err, tail)
+		}
+		r.mu.Lock()
+		r.evals.Add(p.Evals)
+		for k, v := range p.Classes {
+			r.classes[k] += v
+		}
+		for _, s := range p.Samples {
+			if len(r.samples) < r.maxSamples {
+				r.samples = append(r.samples, s)
+			}
+		}
+		for _, v := range p.Vios {
+			if cur := r.vios[v.Sig]; cur != nil {
+				cur.Count += v.Count
+			} else {
+				r.vios[v.Sig] = v
+				r.vioOrder = append(r.vioOrder, v.Sig)
+			}
+		}
+		for k, v := range p.Known {
+			r.knownSeen[k] += v
+		}
+		for k, v := range p.Ints {
+			cur, _ := r.Extra[k].(int64)
+			r.Extra[k] = cur + v
+		}
+		for k, v := range p.Other {
+			r.Extra[k] = v
+		}
+		if !p.Exhaustive {
+			r.exhaustive = false
+			if r.capNote == "" {
+				r.capNote = p.Capped
+			}
+		}
+		for _, a := range p.Assume {
+			dup := false
+			for _, b := range r.Assumptions {
+				if a == b {
+					dup = true
+				}
+			}
+			if !dup {
+				r.Assumptions = append(r.Assumptions, a)
+			}
+		}
+		r.mu.Unlock()
+	}
+	sort.Strings(r.vioOrder)
+}
+
 // Finish writes the evidence file, prints KNOWN-FINDING / VIOLATION lines and exits.
 func (r *Report) Finish() {
 	profStop()
 	r.mu.Lock()
 	defer r.mu.Unlock()
+	if r.IsWorker() {
+		r.emitPartial()
+	}
 	wall := time.Since(r.start).Seconds()
 	nontrivial := 0
 	for range r.classes {
@@ -303,6 +442,11 @@ func (r *Report) Finish() {
 	}
 	// replay artefacts
 	os.MkdirAll(filepath.Join(VerifDir, "replays"), 0o755)
+	if old, _ := filepath.Glob(filepath.Join(VerifDir, "replays", r.ID+"-*.json")); len(old) > 0 {
+		for _, f := range old {
+			os.Remove(f)
+		}
+	}
 	var vlist []*vio
 	for i, sig := range r.vioOrder {
 		v := r.vios[sig]
